@@ -490,21 +490,21 @@ def live_tree_logdet(ck, rng, fails):
             import contextlib
 
             if mode == "assign":
-                m._internal_heights.tensor = torch.tensor(new, dtype=DT)
+                G.heights_param(m).tensor = torch.tensor(new, dtype=DT)
             else:
                 with torch.no_grad():
-                    m._internal_heights.tensor.copy_(torch.tensor(new, dtype=DT))
-                m._internal_heights.fire_parameter_changed()
+                    G.heights_param(m).tensor.copy_(torch.tensor(new, dtype=DT))
+                G.heights_param(m).fire_parameter_changed()
             emode = rng.choice(["no_grad", "grad"])
             with (torch.no_grad() if emode == "no_grad" else contextlib.nullcontext()):
                 got = m().item()
                 _h = m.node_heights
-                m._internal_heights.fire_parameter_changed()
+                G.heights_param(m).fire_parameter_changed()
                 got2 = m().item()
-            if not torch.equal(m._internal_heights.tensor.detach(), torch.tensor(new, dtype=DT)) or got != got2:
+            if not torch.equal(G.heights_param(m).tensor.detach(), torch.tensor(new, dtype=DT)) or got != got2:
                 fails.append((f"ReparameterizedTimeTreeModel.__call__:input-mutated:{emode}",
                               f"after update {k} ({mode}) calling the model ({emode}) left its parameter at "
-                              f"{m._internal_heights.tensor.tolist()} (set to {new}); call {got} then {got2}",
+                              f"{G.heights_param(m).tensor.tolist()} (set to {new}); call {got} then {got2}",
                               {"type": "live-tree", "tree": G.paren(t), "dates": dates, "x": rows, "steps": list(steps)}))
                 return
             true, _ = ad_logabsdet(lambda v: m.transform(v), torch.tensor(new, dtype=DT))
@@ -740,21 +740,21 @@ def replay(path: str) -> int:
         for k, st in enumerate(obj["steps"]):
             new = torch.tensor(st["values"], dtype=DT)
             if st["mode"] == "assign":
-                m._internal_heights.tensor = new.clone()
+                G.heights_param(m).tensor = new.clone()
             else:
                 with torch.no_grad():
-                    m._internal_heights.tensor.copy_(new)
-                m._internal_heights.fire_parameter_changed()
+                    G.heights_param(m).tensor.copy_(new)
+                G.heights_param(m).fire_parameter_changed()
             for emode in ("no_grad", "grad"):
                 with (torch.no_grad() if emode == "no_grad" else contextlib.nullcontext()):
                     got = m().item()
                     _h = m.node_heights
-                    m._internal_heights.fire_parameter_changed()
+                    G.heights_param(m).fire_parameter_changed()
                     got2 = m().item()
                 true, _ = ad_logabsdet(lambda v: m.transform(v), new.clone())
                 print(f"update {k} ({st['mode']}, read under {emode}): model() = {got}, again {got2}; AD Jacobian at the "
-                      f"current ratios {true}; parameter now {m._internal_heights.tensor.tolist()} (set to {st['values']})")
-                if not torch.equal(m._internal_heights.tensor.detach(), new):
+                      f"current ratios {true}; parameter now {G.heights_param(m).tensor.tolist()} (set to {st['values']})")
+                if not torch.equal(G.heights_param(m).tensor.detach(), new):
                     fails.append(("input-mutated", f"calling the model ({emode}) changed its parameter"))
                 if got != got2 or not close(got, true):
                     fails.append(("logdet", f"model() = {got} / {got2}; AD {true}"))
